@@ -144,6 +144,16 @@
 #define CNL_BUILTIN_OVERFLOW_ENABLED
 #endif
 
+#if defined(JOHNMCFARLANE_CNL_VERIF)
+// verification hook: select the overflow-detection path independently of the compiler
+#if defined(CNL_VERIF_FORCE_PORTABLE_OVERFLOW) && defined(CNL_BUILTIN_OVERFLOW_ENABLED)
+#undef CNL_BUILTIN_OVERFLOW_ENABLED
+#endif
+#if defined(CNL_VERIF_FORCE_BUILTIN_OVERFLOW) && !defined(CNL_BUILTIN_OVERFLOW_ENABLED)
+#define CNL_BUILTIN_OVERFLOW_ENABLED
+#endif
+#endif
+
 ////////////////////////////////////////////////////////////////////////////////
 // int-to-string macro
 
